@@ -1,10 +1,12 @@
 """C06 — the WebAssembly backend agrees with the VM or refuses.
 
 Theorems (Lean, Props/C06.lean): `C06_refuses` / `C06_no_silent_drop` — a program containing any instruction outside the
-supported subset makes the generator model fail, and no translated instruction is dropped; `C06_agree_ring` — for int
-functions over + - * (argument loads/stores, constants) the generated code evaluated by the WebAssembly semantics returns
-the VM's result reduced modulo 2^32, for all arguments; `C06_binop_agree_partial` (+ unsigned, division by zero) — each
-translated operation agrees with the VM's operation on in-range operands.
+supported subset makes the generator model fail, and no translated instruction is dropped; `C06_returns_checked` — a return that does not
+match the signature is refused; `C06_agree_ring` — for int functions over + - * (argument loads/stores, constants) the
+generated code evaluated by the WebAssembly semantics returns the VM's result reduced modulo 2^32, for all arguments;
+`C06_agree_int` / `C06_agree_uint` — the same with / == < > for signed / unsigned functions while the VM run stays inside the
+32-bit domain (`runR` / `runRU`); `C06_binop_agree_partial` (+ unsigned, division by zero) — each translated operation agrees
+with the VM's operation on in-range operands (floats: only per operation, abstractly).
 
 Tie to the code: generated straight-line scalar programs; the bytes the real compiler emits are executed by wasmtime 48
 AND by the Lean evaluator (on the decoded bytes) and compared with the real VM on the same arguments: ints as exact
@@ -57,8 +59,8 @@ def explore(run, scale=1):
         _, result, bs = res
         h = bs.hex()
         run.count("subset:emitted")
-        # the IR goes to the driver too: `intrun` = the range-checked VM run that is the hypothesis of C06_agree_int
-        int_only = all(t == "int" for t in p.ptys) and p.ret == "int"
+        # the IR goes to the driver too: `intrun` = the range-checked VM run that is the hypothesis of C06_agree_int / C06_agree_uint
+        int_only = (all(t == "int" for t in p.ptys) and p.ret == "int") or (all(t == "uint" for t in p.ptys) and p.ret == "uint")
         have_ir = False
         if int_only:
             try:
